@@ -39,10 +39,16 @@ def main(argv):
         d, n, v = digest(argv[1], int(argv[2]))
         print(f"DIGEST {argv[1]} {d} runs={n} violations={v}")
         return 0
+    only = None
+    if argv[0] == "only":
+        only = set(argv[1:])
+        argv = ["all"]
     scale = float(argv[1]) if len(argv) > 1 else 1.0
     bad = 0
     rows = []
     for prop, n in PROPS:
+        if only is not None and prop not in only:
+            continue
         n = max(2, int(n * scale))
         seen = {}
         for hs, procs in (("0", "16"), ("1", "4"), ("2", "1"), ("0", "7")):
@@ -63,9 +69,10 @@ def main(argv):
         print(("ok   " if ok else "DIFF ") + prop, n,
               sorted(set(seen.values()))[:2])
         bad += 0 if ok else 1
-    core.write_json(os.path.join(VERIF, "evidence", "selftest",
-                                 "determinism.json"),
-                    {"rows": rows, "all_ok": bad == 0})
+    if only is None:
+        core.write_json(os.path.join(VERIF, "evidence", "selftest",
+                                     "determinism.json"),
+                        {"rows": rows, "all_ok": bad == 0})
     return 1 if bad else 0
 
 
